@@ -89,6 +89,7 @@ func c09Units(tier string, seed int64) []Unit {
 		maxDev int
 		p      int
 		files  []string
+		stale  bool // the run is also given a -rapid.failfile written by another version: ignored, the stored files are still replayed first
 		short  bool // -short: rapid.checks/5 valid cases are promised, and the skip budget follows that number
 	}
 	var scens []scen
@@ -120,6 +121,7 @@ func c09Units(tier string, seed int64) []Unit {
 	}
 	fileKinds := [][]string{{"pass"}, {"skip"}, {"fail"}, {"garbage"}, {"oldversion"}, {"empty"}, {"pass", "fail"}, {"garbage", "pass"}, {"skip", "skip"}, {"fail", "pass"}, {"oldversion", "fail"}}
 	for _, fk := range fileKinds {
+		scens = append(scens, scen{n: 2, base: BPass, maxDev: 1, p: 8, files: fk, stale: true})
 		scens = append(scens, scen{n: 2, base: BPass, maxDev: 2, p: 8, files: fk})
 		scens = append(scens, scen{n: 3, base: BSkip, maxDev: 1, p: 6, files: fk})
 	}
@@ -134,17 +136,26 @@ func c09Units(tier string, seed int64) []Unit {
 			if sc.short {
 				name += "/short"
 			}
+			if sc.stale {
+				name += "/stale-failfile-flag"
+			}
 			units = append(units, Unit{Name: name, Run: func(c *Ctx) {
 				prog := uniqueProg(sc.base)
 				cfg := Config{Checks: sc.n, Seed: sd, ShrinkMS: 5, NoFailFile: true, Name: "TestC09", Short: sc.short}
 				if sc.short {
 					sc.n /= 5 // what Check promises under -short
 				}
+				if sc.stale {
+					cfg.FailFile = "stale.fail"
+				}
 				// prepare fail files: each from a recording of a distinct PRNG seed
 				var files []c09File
 				assignFixed := []KV{}
 				mkFiles := func() {
 					CleanFailFiles()
+					if sc.stale {
+						os.WriteFile("stale.fail", []byte("# stale\nv0.0.1#3\n0x1"), 0o644)
+					}
 					files = files[:0]
 					for i, k := range sc.files {
 						dir, _ := rapid.VerifFailFileName("TestC09")
